@@ -79,10 +79,6 @@ pub mod driver {
     pub fn verif_opt_as_str<'a>(o: &'a Option<String>) -> (r: Option<&'a str>)
         ensures (match r { Some(s) => *o is Some && (o->0)@ == s@, None => *o is None })
     { match o { Some(s) => Some(s.as_str()), None => None } }
-    /// `for x in V.into_iter() { W.push(x) }`: W extended by the elements of V, in order
-    pub fn verif_push_all(w: &mut Vec<String>, v: Vec<String>)
-        ensures final(w)@ == old(w)@ + v@
-    { let mut v = v; w.append(&mut v); }
     /// `Vec<String>::contains(&String)`: some element has the same text
     #[verifier::external_body]
     pub fn verif_contains_text(v: &Vec<String>, s: &String) -> (r: bool)
